@@ -342,6 +342,146 @@ def case(ctx, i, rng):
         ctx.sample(dict(spec=P.spec_summary(spec)))
 
 
+import dataclasses
+from typing import Dict as _Dict, List as _List, Tuple as _Tuple, Union as _Union
+
+
+@dataclasses.dataclass
+class ByIndex:
+    key: int
+    idx: int = 0
+
+
+@dataclasses.dataclass
+class ByName:
+    key: _Union[str, int]
+    name: str = "n"
+
+
+class M10:
+    """class whose init_args need type-aware serialisation (an Enum member, a tuple, a path)"""
+
+    def __init__(self, color: "zoo_Color" = None, pair: _Tuple[int, int] = (1, 2), scale: float = 1.0):
+        self.color, self.pair, self.scale = color, pair, scale
+
+
+def _fix_m10():
+    from vf.fixtures import zoo
+
+    M10.__init__.__annotations__["color"] = zoo.Color
+    M10.__init__.__defaults__ = (zoo.Color.red, (1, 2), 1.0)
+
+
+_fix_m10()
+
+
+def simple_fixed_point(ctx, p, C, tag, w):
+    """validate / parse_object / dump-parse-dump on one result of a hand-built parser"""
+    C0 = copy.deepcopy(C)
+    o = call(p.validate, copy.deepcopy(C0))
+    if not o.accepted:
+        ctx.violation("fixedpoint", f"validate-rejects-own-result/{tag}/{o.exc_type}", dict(w, config=short(C0, 600), outcome=o.brief()))
+        return
+    o = call(p.parse_object, copy.deepcopy(C0))
+    if not o.accepted:
+        ctx.violation("fixedpoint", f"parse_object-rejects-own-result/{tag}/{o.exc_type}", dict(w, config=short(C0, 600), outcome=o.brief()))
+        return
+    d = same_steps(strip_prov(C0), strip_prov(o.value))
+    if d:
+        ctx.violation("fixedpoint", f"parse_object-changes-own-result/{tag}", dict(w, at=steps_str(d[0]), why=d[1], config=short(C0, 600), reparsed=short(o.value, 600)))
+        return
+    for fmt in ("yaml", "json"):
+        d1 = call(p.dump, copy.deepcopy(C0), format=fmt)
+        if not d1.accepted:
+            ctx.violation("fixedpoint", f"dump-of-own-result-fails/{tag}/{fmt}/{d1.exc_type}", dict(w, config=short(C0, 600), outcome=d1.brief()))
+            return
+        o2 = call(p.parse_string, d1.value)
+        if not o2.accepted:
+            ctx.violation("fixedpoint", f"dump-not-reparsable/{tag}/{fmt}", dict(w, text=d1.value[:600], outcome=o2.brief()))
+            return
+        d2 = call(p.dump, o2.value, format=fmt)
+        if not d2.accepted or d2.value != d1.value:
+            ctx.violation("fixedpoint", f"dump-parse-dump-differs/{tag}/{fmt}", dict(w, first=d1.value[:600], second=d2.value[:600] if d2.accepted else d2.brief()))
+            return
+    ctx.count("mon.simple_fixed_points")
+
+
+def lenient_member_unions(ctx, i, rng):
+    """Unions in which a class (or dataclass) value sits behind a member whose serialiser refuses nothing (Enum, registered
+    path type, str), at top level and inside containers; and a container of a Union of dataclasses that share a field name
+    with different types, given an item the first member rejects only after it converted that field."""
+    from jsonargparse import ArgumentParser
+    from jsonargparse.typing import Path_fc
+
+    from vf.fixtures import zoo
+
+    first = rng.choice(["enum", "path", "enum-in-list", "path-in-dict"])
+    p = ArgumentParser(exit_on_error=False)
+    hint = {"enum": _Union[zoo.Color, zoo.Base, M10], "path": _Union[Path_fc, zoo.Base, M10], "enum-in-list": _List[_Union[zoo.Color, zoo.Base, M10]], "path-in-dict": _Dict[str, _Union[Path_fc, zoo.Base, M10]]}[first]
+    p.add_argument("--u", type=hint)
+    spec = rng.choice([
+        {"class_path": "vf.checks.c10.M10", "init_args": {"color": "green", "pair": [3, 4]}},
+        {"class_path": "vf.checks.c10.M10", "init_args": {"color": "blue", "scale": 0.5}},
+        {"class_path": "vf.fixtures.zoo.SubList", "init_args": {"items": [1, 2], "t": [3, "q"]}},
+        {"class_path": "vf.fixtures.zoo.SubA", "init_args": {"a": rng.randrange(9), "b": "x y"}},
+        {"class_path": "vf.fixtures.zoo.SubB", "init_args": {"c": 0.25, "flag": True}},
+    ])
+    val = {"enum": spec, "path": spec, "enum-in-list": ["red", spec], "path-in-dict": {"k": spec}}[first]
+    o = call(p.parse_object, {"u": copy.deepcopy(val)})
+    ctx.evaluation(("lenient-union", first, spec["class_path"]))
+    ctx.count("st.union_with_lenient_member_before_class")
+    w = dict(shape="class-behind-lenient-union-member", hint=str(hint), value=val)
+    if not o.accepted:
+        ctx.violation("fixedpoint", f"valid-input-rejected/class-behind-lenient-union-member/{o.exc_type}", dict(w, outcome=o.brief()))
+    else:
+        simple_fixed_point(ctx, p, o.value, f"class-behind-{first.split('-')[0]}-member", w)
+    # dataclasses sharing a field name
+    q = ArgumentParser(exit_on_error=False)
+    cont = rng.choice(["list", "dict", "tuple"])
+    q.add_argument("--items", type={"list": _List[_Union[ByIndex, ByName]], "dict": _Dict[str, _Union[ByIndex, ByName]], "tuple": _Tuple[_Union[ByIndex, ByName], int]}[cont])
+    item = rng.choice([{"key": "7", "name": "x"}, {"key": "12", "name": "y"}, {"key": 3, "idx": 1}, {"key": "k", "name": "z"}])
+    val = {"list": [item, {"key": 1}], "dict": {"a": item}, "tuple": [item, 5]}[cont]
+    o = call(q.parse_object, {"items": copy.deepcopy(val)})
+    ctx.evaluation(("shared-field", cont, json.dumps(item)))
+    ctx.count("st.union_of_dataclasses_sharing_a_field")
+    w = dict(shape="union-of-dataclasses-sharing-a-field", container=cont, value=val)
+    if not o.accepted:
+        ctx.violation("fixedpoint", f"valid-input-rejected/union-of-dataclasses-sharing-a-field/{o.exc_type}", dict(w, outcome=o.brief()))
+    else:
+        simple_fixed_point(ctx, q, o.value, "union-of-dataclasses-sharing-a-field", w)
+
+
+def hostile_string_fixed_points(ctx):
+    """every string of the hostile pool (number / bool / null / date / indicator look-alikes) accepted by a str, List[str]
+    and Dict[str, str] argument is a fixed point of dump -> parse -> dump in yaml and json"""
+    from jsonargparse import ArgumentParser
+
+    p = ArgumentParser(exit_on_error=False)
+    p.add_argument("--s", type=str)
+    p.add_argument("--l", type=_List[str])
+    p.add_argument("--d", type=_Dict[str, str])
+    for s, cls in c01.all_hostile():
+        obj = {"s": s, "l": [s, "plain"], "d": {"k": s}}
+        if s != "":
+            obj["d"][s] = "v"
+        o = call(p.parse_object, copy.deepcopy(obj))
+        ctx.count("mon.hostile_string_fixed_points")
+        ctx.evaluation(("hostile-fp", s))
+        if not o.accepted:
+            continue
+        for fmt in ("yaml", "json"):
+            d1 = call(p.dump, o.value, format=fmt)
+            o2 = call(p.parse_string, d1.value) if d1.accepted else d1
+            d2 = call(p.dump, o2.value, format=fmt) if o2.accepted else o2
+            if not (d1.accepted and o2.accepted and d2.accepted and d1.value == d2.value):
+                ctx.violation("fixedpoint", f"dump-parse-dump/hostile-string/{fmt}/{cls}", dict(string=s, first=d1.value[:300] if d1.accepted else d1.brief(), second=(d2.value[:300] if d2.accepted else d2.brief())))
+
+
 def run_shard(ctx):
+    if ctx.shard == 0 and ctx.replay is None:
+        hostile_string_fixed_points(ctx)
     for i, rng in ctx.cases():
+        if i % 4 == 1:
+            lenient_member_unions(ctx, i, rng)
+            continue
         case(ctx, i, rng)
